@@ -8,6 +8,8 @@ for id in "$@"; do d=$HERE/seeded/$id
   git -C "$wt" apply "$d/patch.diff" || { echo "$id patch fails"; continue; }
   (cd "$wt" && PYTHONPATH="$wt" timeout 600 /venv/bin/python "$d/demo.py" > "$d/demo_patched.log" 2>&1); p=$?
   git -C "$wt" checkout -- .
-  echo "demo at /repo $(git -C /repo rev-parse --short HEAD): clean exit $c, patched exit $p" > "$d/confirm.log"; echo "$id clean=$c patched=$p"
+  # the demo line is replaced, the suite verdicts recorded earlier (each names the HEAD it ran on) are kept
+  { echo "demo at /repo $(git -C /repo rev-parse --short HEAD): clean exit $c, patched exit $p"; grep -v "^demo at " "$d/confirm.log" 2>/dev/null; } > "$d/confirm.log.new"
+  mv "$d/confirm.log.new" "$d/confirm.log"; echo "$id clean=$c patched=$p"
 done
 git -C /repo worktree remove --force "$wt"
